@@ -4,7 +4,7 @@ META = {
     "category": "proof",
     "text": "Lean 4 theorems over a session machine (Model/Session.lean: disk, view cache with for-update marks, created/updated sets, temporary tables with restore points, commits by other processes): abort_restores - from the most recent commit point, after ANY statements of the transaction, an ending by error / EXIT / interrupt / ROLLBACK leaves every table file exactly as at that commit point, created files absent, temporary tables at their restore point; normal_end_publishes - COMMIT / normal end writes exactly the view the transaction last saw for every created or changed table and nothing else; untouched_identical - files never created or changed stay identical through any statements, commits and rollbacks. Tied to /repo by a differential correspondence: random histories executed statement by statement through the real Processor (SELECT result and bytes on disk compared after every statement, other-process commits injected when no lock is held), the statements include multi-table DELETE, two-table SELECT … FOR UPDATE, part-way failing UPDATE, ALTER TABLE … SET LINE_BREAK (the attribute is part of the compared table state), every table named in several spellings (relative, ./, absolute, absolute with // or /./, without extension); the lock files the transaction holds are part of the compared state; law untouched_file_rewritten (inode of each file vs csvq's own change log); and the same programs as real csvq processes ended normally / by error / EXIT / signal (at the first file access, at the k-th encode of the final COMMIT, during the last statement)",
     "design_ref": "DESIGN.md section 5, C01 and C20",
-    "note": "trusted: Lean kernel; harness + driver; the model treats a DML statement as 'replace the cached table by f(old) or fail' (C05/C08 decide what f is and that failure changes nothing); the commit itself is C10's regenerated sequence; the ending->COMMIT/ROLLBACK dispatch is REGENERATED from lib/query/processor.go and lib/action/run.go on every run (extract/procfacts -> Gen/ProcFacts: the statement loop of Processor.execute and the auto-commit condition of Processor.Execute translated into Lean; Props/C01Proc: frame_end_eq_finish - auto-commit under the translated condition followed by the deferred AutoRollback of cli/app.go IS Session.finish of the ending, execute_loop_first_stop - nothing after the first error / EXIT is executed) and also covered by the process-level runs",
+    "note": "trusted: Lean kernel; harness + driver; the model treats a DML statement as 'replace the cached table by f(old) or fail' (C05/C08 decide what f is and that failure changes nothing); the commit itself is C10's regenerated sequence; the ending->COMMIT/ROLLBACK dispatch is REGENERATED from lib/query/processor.go and lib/action/run.go on every run (extract/procfacts -> Gen/ProcFacts: the statement loop of Processor.execute and the auto-commit condition of Processor.Execute translated into Lean; Props/C01Proc: frame_end_eq_finish - auto-commit under the translated condition followed by the deferred AutoRollback of cli/app.go IS Session.finish of the ending, execute_loop_first_stop - nothing after the first error / EXIT is executed) and also covered by the process-level runs; an INTERNAL FAILURE is an ending by error: Model/ProcFrame.executeWithRecover wraps the translated loop in the TRANSLATED deferred recover (Gen.executeDeferFn) and hands the results back as the regenerated signature says (Gen.executeHasNamedResults - only named results let the deferred function change what a panicking call returns): panic_never_commits (statements succeed, one panics => (TerminateWithError, Fatal Error), no auto-commit under the translated condition, Session.finish .error), execute_no_panic_eq_loop, gen_recover_can_set_results, gen_defer_fn_spec, unnamed_results_swallow_panic (the same frame with unnamed results returns (Terminate, nil) and commits - why the names are essential); dynamically the in-process stream injects a panic through the exported Session API (a standard-output device that panics on a marker the procedure PRINTs) at a random statement - top level, IF / WHILE / CASE bodies, inside a user-defined function called by a statement or a VALUES list - of a procedure run through ONE Processor.Execute with auto-commit on: a Fatal Error must be returned and the files must be what the model says for the statements in front of the failure followed by `end error` (c01.qend error; the same procedure with a harmless marker is the control, c01.qend normal)",
     "technique": "Lean 4 machine-checked proof (invariant relating the running state to the last commit point, induction over statement lists) + differential correspondence in-process and at process level",
 }
 
@@ -21,7 +21,7 @@ def run(run):
             run.stream("c01", 2000, seed_offset=k, env=env, timeout=3000)
     return run.finish(
         level="proof",
-        rule="histories of 3-16 statements (SELECT, SELECT FOR UPDATE, INSERT/DELETE/UPDATE incl. failing ones, CREATE TABLE, temporary tables, COMMIT, ROLLBACK) over 4 files and 2 temporary tables, other-process commits between statements when no lock is held, ending normal / error / EXIT / interrupt; every 4th history also as a real process; non-trivial = distinct (ending, length, final disk) signature",
+        rule="histories of 3-16 statements (SELECT, SELECT FOR UPDATE, INSERT/DELETE/UPDATE incl. failing ones, CREATE TABLE, temporary tables, COMMIT, ROLLBACK) over 4 files and 2 temporary tables, other-process commits between statements when no lock is held, ending normal / error / EXIT / interrupt; every 4th history also as a real process; 30 + n/8 procedures with an injected internal failure (8 placements) and their controls; non-trivial = distinct (ending, length, final disk) signature",
         trusted_base=BASE_TRUST,
         checker_cmd="cd /verif/lean && lake build Csvq.Props.C01 && lake env lean <#print axioms for every theorem>",
     )
